@@ -394,9 +394,17 @@ pub fn filter_atom(pair: Pair<Rule>) -> Parsed<FilterAtom> {
                 }
             }
 
-            test_expr
-                .map(|expr| FilterAtom::test(expr, not))
-                .ok_or("Logical expression is absent".into())
+            match test_expr {
+                // a function with the declared result type ValueType is not a test expression
+                Some(Test::Function(tf)) if tf.is_comparable() => {
+                    Err(JsonPathError::InvalidJsonPath(format!(
+                        "Function {} returns a value and can not be used as a test",
+                        tf
+                    )))
+                }
+                Some(expr) => Ok(FilterAtom::test(expr, not)),
+                None => Err("Logical expression is absent".into()),
+            }
         }
         _ => Err(rule.into()),
     }
